@@ -80,17 +80,34 @@ def run(repo, rep, tier):
     r8b = rep.rule('C10.R8b', 'no uncalled string method in a comparison')
     st = repo.cls(STORE, 'InMemoryObjectStore')
     # ---- R1 ---------------------------------------------------------------
+    from ..inline import Flat
+
+    def through_locals(fnode, e):
+        """the expression a local that is assigned once stands for"""
+        for _ in range(3):
+            if not isinstance(e, ast.Name):
+                break
+            ds = [x.value for x in walk_no_nested(fnode)
+                  if isinstance(x, ast.Assign) and len(x.targets) == 1 and
+                  isinstance(x.targets[0], ast.Name) and
+                  x.targets[0].id == e.id]
+            if len(ds) != 1:
+                break
+            e = ds[0]
+        return e
     for m in st.methods.values():
-        for n in walk_no_nested(m.node):
+        mflat = Flat(m)
+        for n in walk_no_nested(mflat.node):
             if isinstance(n, ast.Assign):
                 for t in n.targets:
                     if isinstance(t, ast.Subscript) and \
                             dotted(t.value) == 'self._data':
                         r1.sites += 1
                         r1.functions.add(m.fq)
-                        ok = is_deepcopy(n.value) and n.value.args and \
-                            isinstance(n.value.args[0], ast.Name) and \
-                            n.value.args[0].id in m.params
+                        val = through_locals(mflat.node, n.value)
+                        ok = is_deepcopy(val) and val.args and \
+                            isinstance(val.args[0], ast.Name) and \
+                            val.args[0].id in m.params
                         r1.ob(ok, m.qualname, {'method': m.qualname,
                                                'stores': norm(n)})
                         if not ok:
@@ -105,7 +122,8 @@ def run(repo, rep, tier):
     # it passed - CreateInstance returns it to the client); assigning to an
     # existing key keeps the dict's own key object
     for m in st.methods.values():
-        facts = stmt_facts(m.node)
+        mflat = Flat(m)
+        facts = stmt_facts(mflat.node)
         for n, (fs, _) in facts.items():
             if not isinstance(n, ast.Assign):
                 continue
@@ -114,8 +132,8 @@ def run(repo, rep, tier):
                         dotted(t.value) == 'self._data'):
                     continue
                 r1.sites += 1
-                key = t.slice
-                kname = norm(key)
+                key = through_locals(mflat.node, t.slice)
+                kname = norm(t.slice)
                 existing = any(
                     (not pol and norm(c) == '%s not in self._data' % kname) or
                     (pol and norm(c) == '%s in self._data' % kname)
